@@ -98,6 +98,10 @@ def write_module(root, program, modpath="m"):
             src = fl["src"]
             if modpath != "m":
                 src = src.replace('"m/', '"%s/' % modpath)
+                if "@packageonly" in src:
+                    # allow-lists name packages by import path: follow the renamed module
+                    src = "\n".join(re.sub(r"(?<![\w/])m/", modpath + "/", l) if l.lstrip().startswith("// @packageonly") else l
+                                    for l in src.split("\n"))
             with open(p, "w") as f:
                 f.write(src)
 
